@@ -366,11 +366,23 @@ pub struct WithClause {
     pub filter: Option<Pred>,
 }
 
+/// `OPTIONAL MATCH chain [WHERE filter]` following the MATCH ... WHERE of the query: every row of the
+/// table so far is extended by all matches of `chain` (joined on the variables already bound) that satisfy
+/// `filter`; a row without such a match is kept once, with the clause's new variables unbound (NULL).
+#[derive(Debug, Clone, PartialEq, Serialize, Deserialize)]
+pub struct OptMatch {
+    pub chain: Chain,
+    pub filter: Option<Pred>,
+}
+
 #[derive(Debug, Clone, PartialEq, Serialize, Deserialize)]
 pub struct Query {
     /// 1–2 comma-separated pattern chains of one MATCH
     pub chains: Vec<Chain>,
     pub filter: Option<Pred>,
+    /// optional pattern after MATCH ... WHERE (absent in replay files written before it existed)
+    #[serde(default)]
+    pub opt: Option<OptMatch>,
     pub with: Option<WithClause>,
     /// non-aggregate items (group keys) come first
     pub ret: Vec<RetItem>,
@@ -412,26 +424,31 @@ impl Chain {
 }
 
 impl Query {
+    /// The MATCH's chains followed by the OPTIONAL MATCH's chain (if any).
+    pub fn all_chains(&self) -> impl Iterator<Item = &Chain> {
+        self.chains.iter().chain(self.opt.iter().map(|o| &o.chain))
+    }
     pub fn has_agg(&self) -> bool {
         self.ret.iter().any(RetItem::is_agg)
     }
     pub fn n_edge_pats(&self) -> usize {
-        self.chains.iter().map(|c| c.steps.len()).sum()
+        self.all_chains().map(|c| c.steps.len()).sum()
     }
     pub fn has_varlen(&self) -> bool {
-        self.chains.iter().any(|c| c.steps.iter().any(|(e, _)| e.hops.is_some()))
+        self.all_chains().any(|c| c.steps.iter().any(|(e, _)| e.hops.is_some()))
     }
     pub fn has_predicate(&self) -> bool {
         self.filter.is_some()
+            || self.opt.as_ref().is_some_and(|o| o.filter.is_some())
             || self.with.as_ref().is_some_and(|w| w.filter.is_some())
-            || self.chains.iter().any(|c| {
+            || self.all_chains().any(|c| {
                 c.node_pats().iter().any(|n| !n.props.is_empty()) || c.steps.iter().any(|(e, _)| !e.props.is_empty())
             })
     }
     /// Node variables in binding order (a shared variable appears once).
     pub fn node_vars(&self) -> Vec<String> {
         let mut v: Vec<String> = Vec::new();
-        for c in &self.chains {
+        for c in self.chains.iter().chain(self.opt.iter().map(|o| &o.chain)) {
             for n in c.node_pats() {
                 if !v.contains(&n.var) {
                     v.push(n.var.clone());
@@ -441,7 +458,7 @@ impl Query {
         v
     }
     pub fn edge_vars(&self) -> Vec<String> {
-        self.chains.iter().flat_map(|c| c.steps.iter().filter_map(|(e, _)| e.var.clone())).collect()
+        self.chains.iter().chain(self.opt.iter().map(|o| &o.chain)).flat_map(|c| c.steps.iter().filter_map(|(e, _)| e.var.clone())).collect()
     }
     /// Feature tags (used for the class histogram / error matrix).
     pub fn features(&self) -> Vec<&'static str> {
@@ -458,21 +475,27 @@ impl Query {
         if self.chains.len() > 1 {
             f.push("comma");
         }
-        if self.chains.iter().any(|c| c.steps.iter().any(|(e, _)| e.dir == Dir::Both)) {
+        if self.all_chains().any(|c| c.steps.iter().any(|(e, _)| e.dir == Dir::Both)) {
             f.push("undirected");
         }
-        if self.chains.iter().any(|c| c.node_pats().iter().any(|n| n.labels.len() > 1)) {
+        if self.all_chains().any(|c| c.node_pats().iter().any(|n| n.labels.len() > 1)) {
             f.push("multilabel");
         }
-        if self.chains.iter().any(|c| c.node_pats().iter().any(|n| !n.props.is_empty())) {
+        if self.all_chains().any(|c| c.node_pats().iter().any(|n| !n.props.is_empty())) {
             f.push("inlineprops");
         }
-        if self.chains.iter().any(|c| c.steps.iter().any(|(e, _)| !e.props.is_empty())) {
+        if self.all_chains().any(|c| c.steps.iter().any(|(e, _)| !e.props.is_empty())) {
             f.push("edgeprops");
         }
         if let Some(p) = &self.filter {
             f.push("where");
             pred_features(p, &mut f);
+        }
+        if let Some(o) = &self.opt {
+            f.push("optional");
+            if o.filter.is_some() {
+                f.push("optional-where");
+            }
         }
         if self.with.is_some() {
             f.push("with");
@@ -558,6 +581,11 @@ pub struct QueryCfg {
     pub p_skiplimit: u32,
     /// restrict to ASTs that Gremlin / GraphQL can express (used by the cross-language sub-check)
     pub simple_only: bool,
+    /// share (percent) of queries drawn from the generators shaped after what the Gremlin and GraphQL
+    /// front ends can express (45 % of them for both, 30 % GraphQL only, 25 % Gremlin only)
+    pub p_shaped: u32,
+    /// share (percent) of queries that carry an OPTIONAL MATCH clause
+    pub p_optional: u32,
 }
 
 impl Default for QueryCfg {
@@ -574,6 +602,8 @@ impl Default for QueryCfg {
             p_order: 30,
             p_skiplimit: 25,
             simple_only: false,
+            p_shaped: 0,
+            p_optional: 0,
         }
     }
 }
@@ -845,6 +875,261 @@ fn agg_item(scope: &Scope) -> BoxedStrategy<RetItem> {
 
 /// The query strategy. `simple_only` restricts to the Gremlin/GraphQL-expressible shapes.
 pub fn query(cfg: QueryCfg) -> BoxedStrategy<Query> {
+    if cfg.p_shaped == 0 {
+        return generic_query(cfg);
+    }
+    let p = cfg.p_shaped.min(99);
+    prop_oneof![
+        (100 - p) * 20 => generic_query(cfg.clone()),
+        p * 9 => shaped_query(Shape::Both, &cfg),
+        p * 6 => shaped_query(Shape::GraphQl, &cfg),
+        p * 5 => shaped_query(Shape::Gremlin, &cfg),
+    ]
+    .boxed()
+}
+
+// ---- queries shaped after the Gremlin / GraphQL front ends --------------------------------------
+
+#[derive(Debug, Clone, Copy, PartialEq, Eq)]
+enum Shape {
+    /// expressible in all four languages
+    Both,
+    /// GraphQL's fragment (several returned properties, nested selections, multi-key orderBy)
+    GraphQl,
+    /// Gremlin's fragment (any direction, labels anywhere, edge elements, aggregates, dedup)
+    Gremlin,
+}
+
+fn inline_props() -> impl Strategy<Value = Vec<(String, Val)>> {
+    prop_oneof![
+        80 => Just(Vec::<(String, Val)>::new()),
+        12 => node_prop_val("x").prop_map(|v| vec![("x".to_string(), v)]),
+        4 => node_prop_val("s").prop_map(|v| vec![("s".to_string(), v)]),
+        2 => node_prop_val("y").prop_map(|v| vec![("y".to_string(), v)]),
+        2 => (node_prop_val("x"), node_prop_val("b")).prop_map(|(x, b)| vec![("x".to_string(), x), ("b".to_string(), b)]),
+    ]
+}
+
+/// A chain GraphQL can read: one end (the root) carries exactly one label, 0–2 typed hops lead away from
+/// it to unlabelled nodes. In a quarter of the cases the chain is written from the other end (all hops
+/// incoming), which is the same pattern.
+fn rooted_chain() -> impl Strategy<Value = Chain> {
+    (
+        0usize..3,
+        prop_oneof![3 => Just(0usize), 5 => Just(1usize), 3 => Just(2usize)],
+        [inline_props(), inline_props(), inline_props()],
+        [0usize..5, 0usize..5],
+        w(25),
+    )
+        .prop_map(|(l, len, props, tys, mirrored)| {
+            let names = ["a", "b", "c"];
+            let mut nodes: Vec<(Vec<String>, Vec<(String, Val)>)> =
+                (0..=len).map(|i| (if i == 0 { vec![LABELS[l].to_string()] } else { vec![] }, props[i].clone())).collect();
+            let mut tys: Vec<String> = tys[..len].iter().map(|t| ETYPES[usize::from(*t >= 3)].to_string()).collect();
+            let dir = if mirrored && len > 0 {
+                nodes.reverse();
+                tys.reverse();
+                Dir::In
+            } else {
+                Dir::Out
+            };
+            let mk = |i: usize| NodePat { var: names[i].to_string(), labels: nodes[i].0.clone(), props: nodes[i].1.clone() };
+            Chain {
+                start: mk(0),
+                steps: (0..len).map(|i| (EdgePat { var: None, ty: Some(tys[i].clone()), dir, hops: None, props: vec![] }, mk(i + 1))).collect(),
+            }
+        })
+}
+
+/// Atoms of the shaped generators: one property against literals. `for_gremlin` adds IS [NOT] NULL and
+/// NOT IN (hasNot / has(k) / without), which GraphQL's filter objects cannot say.
+fn shaped_atom(scope: &Scope, for_gremlin: bool) -> BoxedStrategy<Pred> {
+    let cmp_lit = prop_ref(scope).prop_flat_map(|(e, k)| {
+        let ops = if k == "b" { prop_oneof![Just(CmpOp::Eq), Just(CmpOp::Ne)].boxed() } else { cmp_op().boxed() };
+        (Just(e), ops, literal_for(k), w(15)).prop_map(|(e, op, l, lit_left)| {
+            if lit_left { Pred::Cmp(Expr::Lit(l), op, e) } else { Pred::Cmp(e, op, Expr::Lit(l)) }
+        })
+    });
+    let inlist = prop_ref(scope)
+        .prop_flat_map(|(e, k)| (Just(e), proptest::collection::vec(literal_for(k), 1..4)).prop_map(|(e, l)| Pred::In(e, l)));
+    let strop = (
+        prop_ref(scope),
+        prop_oneof![Just(StrOp::StartsWith), Just(StrOp::EndsWith), Just(StrOp::Contains)],
+        prop_oneof![Just("a"), Just("b"), Just("ab"), Just(""), Just("c")],
+    )
+        .prop_map(|((e, k), op, s)| {
+            if is_str_key(k) || k == "h" { Pred::Str(e, op, s.to_string()) } else { Pred::Cmp(e, CmpOp::Ne, Expr::Lit(Val::Int(0))) }
+        });
+    let mut alts: Vec<(u32, BoxedStrategy<Pred>)> = vec![(8, cmp_lit.boxed()), (2, inlist.clone().boxed()), (2, strop.boxed())];
+    if for_gremlin {
+        let isnull = (prop_ref(scope), any::<bool>()).prop_map(|((e, _), neg)| Pred::IsNull(e, neg));
+        alts.push((2, isnull.boxed()));
+        alts.push((1, inlist.prop_map(|p| Pred::Not(Box::new(p))).boxed()));
+    }
+    proptest::strategy::Union::new_weighted(alts).boxed()
+}
+
+fn agg_fns_for(key: &str) -> &'static [AggFn] {
+    if is_num_key(key) {
+        &[AggFn::Count, AggFn::Sum, AggFn::Min, AggFn::Max, AggFn::Avg, AggFn::Collect]
+    } else if is_str_key(key) {
+        &[AggFn::Count, AggFn::Min, AggFn::Max, AggFn::Collect]
+    } else {
+        &[AggFn::Count, AggFn::Collect]
+    }
+}
+
+fn shaped_query(kind: Shape, cfg: &QueryCfg) -> BoxedStrategy<Query> {
+    let cfg = cfg.clone();
+    let chain_s: BoxedStrategy<Chain> = match kind {
+        Shape::Gremlin => chain(["a", "b", "c"], ["r1", "r2"], &cfg).boxed(),
+        _ => rooted_chain().boxed(),
+    };
+    // where a Gremlin walk ends: 0 = last node, 1 = first node (walked backwards), 2 = last edge, 3 = first edge
+    let focus_sel = prop_oneof![4 => Just(0u8), 3 => Just(1u8), 2 => Just(2u8), 1 => Just(3u8)];
+    (chain_s, focus_sel)
+        .prop_flat_map(move |(mut c, fsel)| {
+            let k = c.steps.len();
+            let evars = ["r1", "r2"];
+            // (focus variable, is an edge, variables predicates may talk about)
+            let (focus, focus_is_edge, scope) = match kind {
+                Shape::Gremlin => {
+                    for (i, (e, _)) in c.steps.iter_mut().enumerate() {
+                        e.hops = None;
+                        e.var = Some(evars[i].to_string());
+                    }
+                    let edge_at = match fsel {
+                        2 if k > 0 => Some(k - 1),
+                        3 if k > 0 => Some(0),
+                        _ => None,
+                    };
+                    match edge_at {
+                        Some(i) => {
+                            // the node beyond the final edge is never visited: it stays unconstrained
+                            let far = if fsel == 2 { &mut c.steps[k - 1].1 } else { &mut c.start };
+                            far.labels.clear();
+                            far.props.clear();
+                            let far_var = far.var.clone();
+                            let nodes: Vec<String> = c.node_pats().iter().map(|n| n.var.clone()).filter(|v| *v != far_var).collect();
+                            let ev = evars[i].to_string();
+                            let edges: Vec<String> = (0..k).map(|j| evars[j].to_string()).collect();
+                            (ev, true, Scope { nodes, edges })
+                        }
+                        None => {
+                            let f = if fsel % 2 == 1 { c.start.var.clone() } else { c.node_pats()[k].var.clone() };
+                            let edges: Vec<String> = (0..k).map(|j| evars[j].to_string()).collect();
+                            (f, false, Scope { nodes: c.node_pats().iter().map(|n| n.var.clone()).collect(), edges })
+                        }
+                    }
+                }
+                _ => {
+                    let mirrored = k > 0 && c.start.labels.is_empty();
+                    let innermost = if mirrored { c.start.var.clone() } else { c.node_pats()[k].var.clone() };
+                    (innermost, false, Scope { nodes: c.node_pats().iter().map(|n| n.var.clone()).collect(), edges: vec![] })
+                }
+            };
+            let a = shaped_atom(&scope, kind == Shape::Gremlin);
+            let filter = prop_oneof![
+                2 => Just(None),
+                3 => a.clone().prop_map(Some),
+                1 => (a.clone(), a).prop_map(|(l, r)| Some(Pred::And(Box::new(l), Box::new(r)))),
+            ];
+            let node_key = prop_oneof![5 => Just("x"), 3 => Just("y"), 3 => Just("s"), 1 => Just("b"), 2 => Just("h")];
+            let edge_key = prop_oneof![4 => Just("w"), 2 => Just("v"), 2 => Just("t")];
+            let key_s: BoxedStrategy<&'static str> = if focus_is_edge { edge_key.boxed() } else { node_key.clone().boxed() };
+            let node_names: Vec<String> = c.node_pats().iter().map(|n| n.var.clone()).collect();
+            (
+                Just(c),
+                Just((focus, focus_is_edge)),
+                filter,
+                // returned items: (kind selector, key of the focus element, aggregate selector) and, for GraphQL, up to three (node, key)
+                (0u32..100, key_s, any::<u16>()),
+                proptest::collection::vec((any::<u16>(), node_key), 1..=3),
+                any::<bool>(),
+                (w(cfg.p_distinct), w(cfg.p_order), any::<bool>(), prop_oneof![3 => Just(false), 1 => Just(true)]),
+                (w(cfg.p_skiplimit), proptest::option::weighted(0.4, 0u32..4), proptest::option::weighted(0.8, 0u32..6)),
+                Just(node_names),
+            )
+        })
+        .prop_map(move |(c, (focus, focus_is_edge), filter, (rsel, key, asel), gitems, deep_first, (distinct, do_order, desc, alt_form), (do_sl, skip, limit), names)| {
+            let k = c.steps.len();
+            let mirrored = kind != Shape::Gremlin && k > 0 && c.start.labels.is_empty();
+            let root = if mirrored { names[k].clone() } else { names[0].clone() };
+            let depth_of = |v: &String| {
+                let pos = names.iter().position(|n| n == v).unwrap_or(0);
+                if mirrored { k - pos } else { pos }
+            };
+            let mut q = Query { chains: vec![c], filter, opt: None, with: None, ret: vec![], distinct: false, order: vec![], skip: None, limit: None };
+            match kind {
+                Shape::Both => q.ret = vec![RetItem::Expr(Expr::Prop(focus.clone(), key.to_string()))],
+                Shape::GraphQl => {
+                    let mut items: Vec<(String, &str)> = gitems.iter().map(|(sel, key)| (names[pick(*sel, names.len())].clone(), *key)).collect();
+                    // the innermost node must select something
+                    if !items.iter().any(|(v, _)| *v == focus) {
+                        items[0].0 = focus.clone();
+                    }
+                    // nested selections are contiguous: order the items by depth (either way round)
+                    items.sort_by_key(|(v, _)| depth_of(v));
+                    if deep_first {
+                        items.reverse();
+                    }
+                    q.ret = items.into_iter().map(|(v, key)| RetItem::Expr(Expr::Prop(v, key.to_string()))).collect();
+                }
+                Shape::Gremlin => {
+                    let prop = Expr::Prop(focus.clone(), key.to_string());
+                    q.ret = vec![match rsel {
+                        0..45 => RetItem::Expr(prop),
+                        45..60 => RetItem::Expr(Expr::Id(focus.clone())),
+                        60..66 if !focus_is_edge => RetItem::Expr(Expr::Labels(focus.clone())),
+                        60..85 => {
+                            let fns = agg_fns_for(key);
+                            RetItem::Agg(fns[pick(asel, fns.len())], Some(prop))
+                        }
+                        85..95 => RetItem::Agg(AggFn::CountStar, None),
+                        _ => RetItem::Agg(AggFn::Count, Some(Expr::Var(focus.clone()))),
+                    }];
+                }
+            }
+            let plain = !q.has_agg() && !q.ret.iter().any(|r| matches!(r, RetItem::Expr(Expr::Labels(_))));
+            q.distinct = distinct && plain && kind != Shape::GraphQl && kind != Shape::Both;
+            if do_order && plain {
+                match kind {
+                    Shape::Gremlin => {
+                        // one key: the returned property (homogeneous keys only)
+                        match &q.ret[0] {
+                            RetItem::Expr(Expr::Prop(_, key)) if key != "h" => q.order.push(OrderKey { item: 0, desc, alt_form }),
+                            _ => {}
+                        }
+                    }
+                    _ => {
+                        // root properties among the returned items (GraphQL's orderBy); for `Both` that is
+                        // only possible when the chain is a single node
+                        for (i, r) in q.ret.iter().enumerate() {
+                            if let RetItem::Expr(Expr::Prop(v, key)) = r
+                                && *v == root
+                                && key != "h"
+                                && q.order.len() < 2
+                                && !q.order.iter().any(|o: &OrderKey| matches!(&q.ret[o.item], RetItem::Expr(Expr::Prop(_, k2)) if k2 == key))
+                            {
+                                q.order.push(OrderKey { item: i, desc: desc ^ (q.order.len() == 1), alt_form: false });
+                            }
+                        }
+                    }
+                }
+            }
+            if do_sl && plain {
+                q.skip = skip;
+                q.limit = limit;
+                if q.skip.is_none() && q.limit.is_none() {
+                    q.limit = Some(2);
+                }
+            }
+            q
+        })
+        .boxed()
+}
+
+fn generic_query(cfg: QueryCfg) -> BoxedStrategy<Query> {
     let cfg2 = cfg.clone();
     let chains = (chain(["a", "b", "c"], ["r1", "r2"], &cfg), w(if cfg.simple_only { 0 } else { cfg.p_second_chain }), chain(["d", "e", "f"], ["r3", "r4"], &cfg), any::<u16>(), any::<bool>())
         .prop_map(|(c1, second, mut c2, share, do_share)| {
@@ -860,12 +1145,46 @@ pub fn query(cfg: QueryCfg) -> BoxedStrategy<Query> {
             }
             vec![c1, c2]
         });
-    chains
-        .prop_flat_map(move |chains| {
+    // OPTIONAL MATCH: a chain of new variables `o`, `p`, `u` / `q1`, `q2` that starts at a node of the MATCH
+    // (the usual case) or stands alone (Cartesian); only after a single-chain MATCH, so that the comma-pattern
+    // defects do not mix in
+    let opt_chain = (w(cfg.p_optional), chain(["o", "p", "u"], ["q1", "q2"], &cfg), any::<u16>(), w(85));
+    (chains, opt_chain)
+        .prop_map(|(chains, (optional, mut oc, share, do_share))| {
+            if !optional || chains.len() != 1 {
+                return (chains, None);
+            }
+            if do_share && !oc.steps.is_empty() {
+                let names: Vec<String> = chains[0].node_pats().iter().map(|n| n.var.clone()).collect();
+                oc.start = NodePat { var: names[pick(share, names.len())].clone(), labels: vec![], props: vec![] };
+            }
+            (chains, Some(oc))
+        })
+        .prop_flat_map(move |(chains, oc)| {
             let cfg = cfg2.clone();
-            let q0 = Query { chains: chains.clone(), filter: None, with: None, ret: vec![], distinct: false, order: vec![], skip: None, limit: None };
-            let scope = Scope { nodes: q0.node_vars(), edges: q0.edge_vars() };
-            let filter = prop_oneof![2 => Just(None), 5 => pred(&scope, &cfg).prop_map(Some)];
+            let q0 = Query { chains: chains.clone(), filter: None, opt: None, with: None, ret: vec![], distinct: false, order: vec![], skip: None, limit: None };
+            // the MATCH's WHERE sees the MATCH's variables only
+            let scope0 = Scope { nodes: q0.node_vars(), edges: q0.edge_vars() };
+            // (GQL has no place for the MATCH's own WHERE when an OPTIONAL MATCH follows: generated less often then)
+            let filter = if oc.is_some() {
+                prop_oneof![5 => Just(None), 2 => pred(&scope0, &cfg).prop_map(Some)].boxed()
+            } else {
+                prop_oneof![2 => Just(None), 5 => pred(&scope0, &cfg).prop_map(Some)].boxed()
+            };
+            let q1 = Query { opt: oc.clone().map(|chain| OptMatch { chain, filter: None }), ..q0 };
+            let scope = Scope { nodes: q1.node_vars(), edges: q1.edge_vars() };
+            // the optional clause's WHERE talks about the clause's own variables (and the node it starts from)
+            let opt_filter: BoxedStrategy<Option<Pred>> = match &oc {
+                Some(c) => {
+                    let so = Scope {
+                        nodes: c.node_pats().iter().map(|n| n.var.clone()).collect(),
+                        edges: c.steps.iter().filter_map(|(e, _)| e.var.clone()).collect(),
+                    };
+                    prop_oneof![3 => Just(None), 2 => pred(&so, &cfg).prop_map(Some)].boxed()
+                }
+                None => Just(None).boxed(),
+            };
+            let chains = (Just(chains), Just(oc), opt_filter);
             let plain_ret = proptest::collection::vec(ret_expr(&scope).prop_map(RetItem::Expr), 1..=3);
             let agg_ret = (proptest::collection::vec(prop_ref(&scope).prop_map(|(e, _)| RetItem::Expr(e)), 0..=2), proptest::collection::vec(agg_item(&scope), 1..=2))
                 .prop_map(|(mut g, a)| {
@@ -879,7 +1198,7 @@ pub fn query(cfg: QueryCfg) -> BoxedStrategy<Query> {
             };
             let with = (w(if cfg.simple_only { 0 } else { cfg.p_with }), prop_ref(&scope), any::<bool>(), cmp_op(), int_val());
             (
-                Just(chains),
+                chains,
                 filter,
                 ret,
                 w(cfg.p_distinct),
@@ -891,10 +1210,11 @@ pub fn query(cfg: QueryCfg) -> BoxedStrategy<Query> {
                 with,
             )
         })
-        .prop_map(|(chains, filter, ret, distinct, do_order, okeys, alt_form, do_sl, (skip, limit), with)| {
-            let mut q = Query { chains, filter, with: None, ret, distinct, order: vec![], skip: None, limit: None };
+        .prop_map(|((chains, oc, ofilter), filter, ret, distinct, do_order, okeys, alt_form, do_sl, (skip, limit), with)| {
+            let opt = oc.map(|chain| OptMatch { chain, filter: ofilter });
+            let mut q = Query { chains, filter, opt, with: None, ret, distinct, order: vec![], skip: None, limit: None };
             let (do_with, (wexpr, wkey), wfilter, wop, wlit) = with;
-            if do_with && !q.has_agg() {
+            if do_with && !q.has_agg() && q.opt.is_none() {
                 // WITH passes every node variable through and adds one computed alias `v0`;
                 // RETURN then refers to pass-through variables and to `v0`.
                 let mut items: Vec<(Expr, String)> = q.node_vars().into_iter().map(|v| (Expr::Var(v.clone()), v)).collect();
